@@ -7,7 +7,7 @@ PROPS = {
         "witness_always": ["common_scaled", "texlang_parse_num", "stdlib_totality"],
         "witness_bound": {"common_scaled": "print->scan round trip: ALL 2^16 fractions x 9 integer parts x both signs (display_no_units / parse_no_units on the real code); boundary lattices for the arithmetic functions"},
         "level": "proof",
-        "verus": ["common_scaled", "texlang_parse_int", "texlang_parse_keyword", "texlang_parse_dimen", "texlang_parse_glue", "stdlib_math"],
+        "verus": ["common_scaled", "texlang_parse_int", "texlang_parse_keyword", "texlang_parse_dimen", "texlang_parse_glue", "stdlib_math", "stdlib_mathvar"],
         "kani": [],
         "unverified_callers": [
             "texlang-stdlib/src/the.rs (token production from the printed string)",
@@ -25,7 +25,7 @@ PROPS["C01"] = {
     "witness_always": ["stdlib_scoping"],
     "witness_bound": {"stdlib_scoping": "real VM + full stdlib vs a stack-of-snapshots model: every program of <= 3 operations, of 4 operations opening a group in the first two, of 5 starting with two nested groups (thorough: all 345k programs of <= 5) over 25 operations: {, }, local/global \\count, \\advance, \\countdef alias, \\def of a control sequence and of an ACTIVE character, \\def behind several prefixes (\\long, \\long\\global, \\global\\long\\outer, \\outer\\long\\global), \\let (also of a name to itself), \\catcode, \\globaldefs in {1,-1,0}; separately \\dimen and \\skip registers next to \\count (each kind has its own save-stack slot) with \\advance / \\multiply / \\divide whose result equals the old value (by 0, by 1: with \\global the value must still become global): 11807 histories of <= 3 operations, of 4 starting with a group, of 5 starting with two nested groups, over 16 operations; separately the CURRENT FONT over every history of <= 6 steps of {, }, three local and one \\global font selector; all values read after every step"},
     "level": "proof",
-    "verus": ["stdext_groupingmap", "texlang_savestack", "texlang_cmdmap", "texlang_vmgroups", "stdlib_prefix"],
+    "verus": ["stdext_groupingmap", "texlang_savestack", "texlang_cmdmap", "texlang_vmgroups", "stdlib_prefix", "stdlib_mathvar"],
     "kani": [],
     "unverified_callers": [
         "texlang/src/vm/mod.rs VM::run_impl dispatch (VM::begin_group/end_group are proved: three stacks in lockstep, unwraps safe)",
@@ -165,7 +165,7 @@ PROPS["C02"] = {
 PROPS["C09"] = {
     "level": "proof",
     "only_kinds": ["overflow", "div-by-zero", "bounds", "precondition", "shift", "assertion", "concrete-counterexample", "kani"],
-    "verus": ["common_scaled", "texlang_parse_int", "texlang_parse_keyword", "texlang_parse_dimen", "texlang_parse_glue", "stdlib_math", "stdext_groupingmap", "stdext_kmp", "texlang_savestack", "texlang_cmdmap", "texlang_vmgroups", "stdlib_prefix", "stdlib_cond", "stdlib_expandafter", "texlang_macro", "texlang_macrocall", "stdlib_def", "stdlib_defprim", "texlang_streams"],
+    "verus": ["common_scaled", "texlang_parse_int", "texlang_parse_keyword", "texlang_parse_dimen", "texlang_parse_glue", "stdlib_math", "stdlib_mathvar", "stdext_groupingmap", "stdext_kmp", "texlang_savestack", "texlang_cmdmap", "texlang_vmgroups", "stdlib_prefix", "stdlib_cond", "stdlib_expandafter", "texlang_macro", "texlang_macrocall", "stdlib_def", "stdlib_defprim", "texlang_streams"],
     "kani": [],
     "witness_always": ["texlang_parse_num", "stdlib_totality"],
     "witness_fns": {"texlang_parse_num": ["parse_impl", "parse_constant", "scan_dimen"]},
